@@ -122,6 +122,16 @@ def check_inplace(ctx, root, X, rep):
     if not np.array_equal(np.isnan(X), np.isnan(X0)) or not np.array_equal(X[~np.isnan(X)], X0[~np.isnan(X0)]):
         ctx.violation('c06-caller-array-modified', 'mpe(inplace=False) modified the caller array', replay=rep)
         return None
+    # the same contract with worker threads (the documented n_jobs argument): same completion, caller array untouched
+    for nj in (2, -1):
+        Yp = mpe(root, X, inplace=False, n_jobs=nj)
+        ctx.count('mpe-calls-with-worker-threads')
+        if not np.array_equal(np.isnan(X), np.isnan(X0)) or not np.array_equal(X[~np.isnan(X)], X0[~np.isnan(X0)]) or Yp is X:
+            ctx.violation('c06-caller-array-modified:n_jobs', f'mpe(inplace=False, n_jobs={nj}) modified the caller array (or returned it)', replay=dict(rep, n_jobs=nj))
+            return None
+        if not np.array_equal(np.nan_to_num(Yp, nan=-9.5), np.nan_to_num(Y, nan=-9.5)):
+            ctx.violation('c06-n_jobs-differs', f'mpe(n_jobs={nj}) returns another completion than the sequential pass', replay=dict(rep, n_jobs=nj))
+            return None
     Z = X.copy()
     W = mpe(root, Z, inplace=True)
     if W is not Z and not np.shares_memory(W, Z):
